@@ -74,7 +74,7 @@ func GraphCase(r *rand.Rand, name string, o GraphOpts) *Case {
 		callables["fn:StampNum"] = "conv.StampNum"
 	}
 	// edges
-	edgeKinds := []string{"ptr", "ptr", "slice", "map", "direct", "sliceptr", "mapslice"}
+	edgeKinds := []string{"ptr", "ptr", "slice", "map", "direct", "sliceptr", "mapslice", "namedslice", "namedmap"}
 	hasVal := false
 	for i := 0; i < n; i++ {
 		var fs, ft []*Field
@@ -100,6 +100,13 @@ func GraphCase(r *rand.Rand, name string, o GraphOpts) *Case {
 				a, b = Slice(Ptr(Named(sD[j]))), Slice(Ptr(Named(tD[j])))
 			case "mapslice":
 				a, b = Map(Basic("int"), Slice(Named(sD[j]))), Map(Basic("int"), Slice(Named(tD[j])))
+			case "namedslice":
+				// the recursion runs through a named container type, i.e. through one more generated helper
+				a = Named(decl(fmt.Sprintf("L%d%d%sIn", i, k, pool[j]), Slice(Named(sD[j]))))
+				b = Named(decl(fmt.Sprintf("L%d%d%sOut", i, k, pool[j]), Slice(Named(tD[j]))))
+			case "namedmap":
+				a = Named(decl(fmt.Sprintf("M%d%d%sIn", i, k, pool[j]), Map(Basic("string"), Named(sD[j]))))
+				b = Named(decl(fmt.Sprintf("M%d%d%sOut", i, k, pool[j]), Map(Basic("string"), Named(tD[j]))))
 			}
 			fs = append(fs, F(fn, a))
 			ft = append(ft, F(fn, b))
